@@ -214,7 +214,7 @@ def c08(ctx, t0):
     if want(ctx, 'readers'):
         hx = ctx.build_hx()
         res.append(ctx.run_child('readers', [hx, 'c08readers'], T(ctx, 300, 1800)))
-    floors = {'kill_boundaries_hit': (counters(res, 'kill_boundaries_hit'), 60), 'model_states_distinct': (counters(res, 'model_states_distinct'), 60),
+    floors = {'auth_reader_observations': (counters(res, 'auth_reader_observations'), 2000), 'auth_reader_versions_seen': (counters(res, 'auth_reader_versions_seen'), 20), 'kill_boundaries_hit': (counters(res, 'kill_boundaries_hit'), 60), 'model_states_distinct': (counters(res, 'model_states_distinct'), 60),
               'kill_states_matching_model': (counters(res, 'kill_states_matching_model'), 60), 'reader_observations': (counters(res, 'reader_observations'), 1000),
               'followup_operations_after_crash': (counters(res, 'followup_operations_after_crash'), 20)}
     return finish(ctx, 'fault_enumeration', res, COMMON_ASSUME + [
